@@ -245,7 +245,7 @@ def so_format(so, text_bytes, d):
     with open(f, "wb") as fh:
         fh.write(text_bytes)
     try:
-        p = subprocess.run(["python3", "-c", SO_RUNNER, so, f], capture_output=True, timeout=60)
+        p = subprocess.run(["python3", "-c", SO_RUNNER, so, f], capture_output=True, timeout=300)
     except subprocess.TimeoutExpired:
         return {"hang": True}
     if b"RESULT:" in p.stdout:
@@ -253,7 +253,7 @@ def so_format(so, text_bytes, d):
     return {"crash": p.returncode, "stderr": p.stderr[-300:].decode("utf-8", "replace")}
 
 
-def cli(cbin, args, cwd, timeout=60):
+def cli(cbin, args, cwd, timeout=300):
     try:
         p = subprocess.run([cbin] + args, cwd=cwd, capture_output=True, timeout=timeout)
         return p.returncode, p.stdout.decode("utf-8", "replace"), p.stderr.decode("utf-8", "replace")
@@ -449,7 +449,7 @@ def run_c12(ctx):
                 fh.write(t)
             o = os.path.join(d, "out")
             rm(o)
-            p = subprocess.run([cbin, "compile", "-f", f, "-g", o + "/go", "-r", o + "/rs"], cwd=d, capture_output=True, text=True, timeout=60)
+            p = subprocess.run([cbin, "compile", "-f", f, "-g", o + "/go", "-r", o + "/rs"], cwd=d, capture_output=True, text=True, timeout=300)
             ctx.count("cli_rejections_checked")
             wrote = os.path.isdir(o) and any(files for _, _, files in os.walk(o))
             if p.returncode == 0 or wrote:
